@@ -76,6 +76,12 @@ func (conn *tncConn) Write(p []byte) (int, error) {
 	conn.dataLock.Lock()
 	defer conn.dataLock.Unlock()
 
+	select {
+	case <-conn.eofChan:
+		return 0, io.EOF // Disconnected (the TNC's channels may be closed by now)
+	default:
+	}
+
 	// TODO: Consider implementing chunking
 	if len(p) > 65535 { // uint16 (length bytes) max
 		p = p[:65535]
@@ -111,7 +117,11 @@ L:
 			return 0, fmt.Errorf("CRC failure")
 		}
 
-		conn.dataOut <- buf.Bytes()
+		select {
+		case conn.dataOut <- buf.Bytes():
+		case <-conn.eofChan:
+			return 0, io.EOF
+		}
 		conn.mu.Lock()
 		conn.nWritten += n
 		conn.mu.Unlock()
@@ -165,6 +175,12 @@ func (conn *tncConn) Close() error {
 			}
 		}
 	}()
+
+	select {
+	case <-conn.eofChan:
+		return nil // Already disconnected (the TNC's channels may be closed by now)
+	default:
+	}
 
 	// Flush: (THIS WILL PROBABLY BE REMOVED WHEN ARDOP MATURES)
 	// We have to flush, because ardop will disconnect without waiting for the last
